@@ -93,13 +93,22 @@ func cliStage(r *mon.Run) {
 	// the route by which each recipient reaches the tool: -r STRING, its own -R
 	// file, one -R file shared by all, -R for plugins and -r for the rest (and
 	// the reverse), or an identity file given with -e -i
-	routes := []string{"r", "R-each", "R-shared", "plugins-R", "natives-R", "i"}
+	// (a "/noeol" file lacks its final newline, a "/crlf" file has CRLF line ends)
+	routes := []string{"r", "R-each", "R-shared", "plugins-R", "natives-R", "i", "R-shared/noeol", "R-each/noeol", "i/noeol", "R-shared/crlf"}
 	nfile := 0
 	build := func(route string, recs []rcp) (argv []string, ok bool) {
+		route, layout, _ := strings.Cut(route, "/")
 		writeFile := func(lines ...string) string {
 			nfile++
 			p := filepath.Join(work, fmt.Sprintf("keys%d.txt", nfile))
-			os.WriteFile(p, []byte("# c11\n"+strings.Join(lines, "\n")+"\n"), 0o600)
+			text := "# c11\n" + strings.Join(lines, "\n") + "\n"
+			switch layout {
+			case "noeol":
+				text = strings.TrimSuffix(text, "\n")
+			case "crlf":
+				text = strings.ReplaceAll(text, "\n", "\r\n")
+			}
+			os.WriteFile(p, []byte(text), 0o600)
 			return p
 		}
 		if route == "R-shared" {
